@@ -48,7 +48,9 @@ def check_event(s, ev, out):
     op = ev['op'][0]
     idle_views(s, out, f'after {ev["op"]}')
     if ev.get('fault'):
-        out.label('db-fault-during-dispatch')
+        out.label('db-fault-while-handling-a-reply'
+                  if any(e[1] == 'escaped dataReceived' for e in ev['errors'])
+                  else 'db-fault-during-dispatch')
     if (op == 'tick' and s.fsm.active and not s.sched.is_paused()
             and not ev.get('fault')):
         released = {(u.jobid, u.target) for u in ev['released']}
@@ -237,7 +239,7 @@ def parts(tier):
         core.Part(
             'faults', execute,
             strategy=sim.histories(
-                weights={'req': 3, 'dbfault': 3},
+                weights={'req': 3, 'dbfault': 3, 'tgtfault': 3},
                 spec_kw={'kinds': ('task', 'task', 'analysis', 'regress')},
             ),
             cases=400 if q else 12500, batch=200,
